@@ -35,7 +35,7 @@ import strax.processors.threaded_mailbox as tmm  # noqa: E402
 from lib import sched as S  # noqa: E402
 
 ID = "C13"
-LEAN_MODULES = ["StraxModel.Props.C13", "StraxModel.Props.C13Net", "StraxModel.Props.C13Dag"]
+LEAN_MODULES = ["StraxModel.Props.C13", "StraxModel.Props.C13Net", "StraxModel.Props.C13Dag", "StraxModel.Props.C13Gates", "StraxModel.Props.C05Gates"]
 TRUSTED = [
     "cooperative scheduler checks/lib/sched.py (replaces `threading` inside strax.mailbox and the thread pool of "
     "strax.processors.threaded_mailbox: real threads, one runs at a time, yield points at lock acquire / Condition.wait / "
@@ -43,6 +43,10 @@ TRUSTED = [
     "harness probes: iterators handed to Mailbox._send_from / divide_outputs are wrapped (by rebinding the Thread arguments of "
     "the already wired processor, nothing in /repo is edited) so that every advance of a mailbox's source is observed",
     "modelled, not verified: threading.Condition / RLock semantics, heapq, Plugin.iter for one-to-one plugins",
+    "translator (checks/lib/mailbox_translate.py, step regen): AST of can_write (Mailbox.send), Mailbox._can_fetch, _has_msg, "
+    "_lowest_msg_number, next_ready and the clean-up test of _read, the number check of send -> Generated/MailboxGates.lean over "
+    "MailboxAbs.St; Props/C13Gates.lean proves generated can_write / _can_fetch = MB.canWrite / MB.canFetch (gate rule hasMsg); "
+    "trusted: heap[0][0] of a heapq is the smallest number, float('inf') = no capacity",
 ]
 ASSUMPTIONS = [
     "plugins are one-to-one on chunks (every plugin emits one chunk per input chunk, all sources chunked alike): the bound "
@@ -54,6 +58,12 @@ ASSUMPTIONS = [
 
 RUN = "0"
 SW = strax.SaveWhen
+
+
+def regen(ctx):
+    """step 0: regenerate Generated/MailboxGates.lean from the current source of strax/mailbox.py (shared with C05)"""
+    from lib import mailbox_translate
+    mailbox_translate.regen(ctx)
 
 try:                                        # the scheduler hands a baton between real threads: one CPU is much faster
     os.sched_setaffinity(0, {sorted(os.sched_getaffinity(0))[0]})
